@@ -427,6 +427,13 @@ class Check:
         self.known.append(what)
 
     def finish(self):
+        # mechanism slices attached to this property (checks/slices.py): their theorems and differential suites
+        try:
+            import slices
+        except ImportError:
+            slices = None
+        if slices is not None:
+            slices.attach(self)
         os.makedirs(os.path.join(ROOT, 'evidence'), exist_ok=True)
         os.makedirs(os.path.join(ROOT, 'replays'), exist_ok=True)
         nob = len(self.obligations)
